@@ -201,26 +201,26 @@ type Injected struct {
 
 // Config is a logical plugin configuration (DESIGN.md §3).
 type Config struct {
-	Types              []string
-	Sort               bool
-	SortSet            bool // whether sort is mentioned at all
-	DefaultPackageName string
-	TargetPackageName  string
-	DurationCustomType string
-	UseStateForUnknown bool
-	ExcludeFields      []string
-	ComputedFields     []string
-	RequiredFields     []string
-	SensitiveFields    []string
-	Suffixes           map[string]string
-	NameOverrides      map[string]string
-	Validators         map[string][]string
-	PlanModifiers      map[string][]string
-	TimeType           *SchemaType
-	DurationType       *SchemaType
-	InjectedFields     map[string][]Injected
+	Types               []string
+	Sort                bool
+	SortSet             bool // whether sort is mentioned at all
+	DefaultPackageName  string
+	TargetPackageName   string
+	DurationCustomType  string
+	UseStateForUnknown  bool
+	ExcludeFields       []string
+	ComputedFields      []string
+	RequiredFields      []string
+	SensitiveFields     []string
+	Suffixes            map[string]string
+	NameOverrides       map[string]string
+	Validators          map[string][]string
+	PlanModifiers       map[string][]string
+	TimeType            *SchemaType
+	DurationType        *SchemaType
+	InjectedFields      map[string][]Injected
 	ImportPathOverrides map[string]string
-	CustomTypes        map[string]string
+	CustomTypes         map[string]string
 }
 
 // Clone returns a deep copy of the configuration.
